@@ -502,6 +502,39 @@ def r_capfwd(ctx, view):
                         dropped.append("%s.%s" % (comp, name))
             ctx.ob("R-CAPFWD", "Store::%s:errors-propagate" % name, not dropped, f.loc(),
                    "every reservation result is consumed" if not dropped else "result(s) discarded: %s" % dropped)
+            # path by path: `Ok` is returned only after every reservation made on the path has been seen to succeed
+            from .rules_iter import _paths
+            from .core import edge_presence
+            paths = _paths(f)
+            bad_path = None
+            if paths is None:
+                bad_path = "the method has a loop: not decided"
+            else:
+                res_blocks = {e["bb"] for comp in ("map", "heap", "qp") for e in caps.get(comp, []) if e["name"] == name}
+                for pth in paths:
+                    executed = [b2 for b2 in pth if b2 in res_blocks]
+                    established = set()
+                    last0 = None
+                    for a, b2 in zip(pth, pth[1:]):
+                        ta = f.term(a)
+                        if ta["k"] == "switch" and len(f.cfg.succ[a]) >= 2:
+                            d = strip(view.vp.operand(f, ta["discr"]))
+                            if d[0] == "discr" and edge_presence(d, ta, b2) == "present":
+                                for x in walk(d):
+                                    if x[0] == "call" and len(x) > 3 and isinstance(x[3], tuple) and x[3][0] == f.key and x[3][1] in res_blocks:
+                                        established.add(x[3][1])
+                    for b2 in pth:
+                        for st in f.blocks[b2]["stmts"]:
+                            if st["k"] == "assign" and st["place"]["local"] == 0 and not st["place"]["proj"]:
+                                last0 = st["rv"]
+                    if last0 is not None and last0["k"] == "aggregate" and last0.get("variant") == "Ok":
+                        missing = [b2 for b2 in executed if b2 not in established]
+                        if missing:
+                            bad_path = "returns Ok(..) on the path %s although the reservation at line %d was not seen to succeed on it" % (
+                                "->".join("bb%d" % x for x in pth[:14]), f.term(missing[0])["span"]["line"])
+                            break
+            ctx.ob("R-CAPFWD", "Store::%s:ok-only-after-every-reservation-succeeded" % name, bad_path is None, f.loc(),
+                   bad_path or "every path that returns Ok has taken the success edge of each reservation it made")
         for Q in QUEUES:
             q = prog.fn("%s::%s" % (Q, name))
             ctx.anchor("%s::%s" % (Q, name), q is not None)
